@@ -25,7 +25,7 @@ def body(c):
     c.cov["rule"] = (
         "TLC: every history of <= MaxOps calls of NetDataMC from every start "
         "object (empty / filled with distinct values, both z0 modes), indices "
-        "from {-1,0,n-1,n,n+1}, 11 invariants.  Implementation: %d start "
+        "from {-1,0,n-1,n,n+1}, 12 invariants.  Implementation: %d start "
         "objects x every sequence of %d calls over a %d-call alphabet with "
         "symbolic boundary indices (%d cases)%s, plus %d random histories of "
         "%d calls (dims 0..4, all 11 types + invalid, z0/fz0 switches, "
